@@ -64,9 +64,79 @@ func errorResult(call *ssa.Call) (ssa.Value, bool, bool) {
 	return nil, false, false
 }
 
+// sameErr: v is E, or a load of a local variable (a named result spilled because the function has
+// defers) whose most recent store on every path is E.
+func sameErr(v, E ssa.Value) bool { return sameErrD(v, E, 0) }
+
+func sameErrD(v, E ssa.Value, depth int) bool {
+	if v == E {
+		return true
+	}
+	if depth > 3 {
+		return false
+	}
+	ld, ok := v.(*ssa.UnOp)
+	if !ok || ld.Op != token.MUL {
+		return false
+	}
+	al, ok := ld.X.(*ssa.Alloc)
+	if !ok {
+		return false
+	}
+	pos := func(in ssa.Instruction) ipos {
+		for i, x := range in.Block().Instrs {
+			if x == in {
+				return ipos{in.Block(), i}
+			}
+		}
+		return ipos{in.Block(), 0}
+	}
+	var stores []*ssa.Store
+	for _, ref := range *al.Referrers() {
+		switch x := ref.(type) {
+		case *ssa.Store:
+			if x.Addr == ssa.Value(al) {
+				stores = append(stores, x)
+			}
+		case *ssa.UnOp:
+		default:
+			return false // address escapes
+		}
+	}
+	for _, s := range stores {
+		if s.Val != E {
+			continue
+		}
+		ps, pl := pos(s), pos(ld)
+		if !(ps.b == pl.b && ps.i < pl.i) && !(ps.b != pl.b && ps.b.Dominates(pl.b)) {
+			continue
+		}
+		clean := true
+		for _, o := range stores {
+			if o == s {
+				continue
+			}
+			if po := pos(o); po.b == pl.b && po.i > pl.i {
+				continue // after the load in straight-line code
+			}
+			if o.Val != ssa.Value(ld) && sameErrD(o.Val, E, depth+1) {
+				continue // re-stores the same error (return err with a spilled result)
+			}
+			po := pos(o)
+			if reaches(ps, po, ps) && reaches(po, pl, ps) {
+				clean = false
+			}
+		}
+		if clean {
+			return true
+		}
+	}
+	return false
+}
+
 // derivedFrom: v is E itself, a call that has E among its arguments (wrapping), or a phi of such.
 func derivedFrom(v, E ssa.Value, depth int) bool {
-	if v == E {
+	if sameErr(v, E) {
 		return true
 	}
 	if depth > 4 {
@@ -152,7 +222,7 @@ func errHandled(fn *ssa.Function, call *ssa.Call, E ssa.Value) (bool, ssa.Instru
 				}
 				ns := [2]int{state, state}
 				if bo, ok := cond.(*ssa.BinOp); ok && state == unchecked && (bo.Op == token.NEQ || bo.Op == token.EQL) &&
-					((bo.X == E && isNilConst(bo.Y)) || (bo.Y == E && isNilConst(bo.X))) {
+					((sameErr(bo.X, E) && isNilConst(bo.Y)) || (sameErr(bo.Y, E) && isNilConst(bo.X))) {
 					errOnTrue := (bo.Op == token.NEQ) != neg
 					if errOnTrue {
 						ns = [2]int{errPath, okPath}
@@ -216,18 +286,84 @@ func ruleErrChk(c *Ctx, r *RuleResult, fnName, sinkParam string) {
 		failf("%s does not return an error", fnName)
 	}
 	wrappers := map[ssa.Value]string{}
-	for _, b := range fn.Blocks {
-		for _, in := range b.Instrs {
-			if call, ok := in.(*ssa.Call); ok {
+	for changed := true; changed; {
+		changed = false
+		for _, b := range fn.Blocks {
+			for _, in := range b.Instrs {
+				call, ok := in.(*ssa.Call)
+				if !ok {
+					continue
+				}
+				if _, done := wrappers[call]; done {
+					continue
+				}
 				if f := call.Call.StaticCallee(); f != nil {
-					if why, ok := bufferingWrappers[f.String()]; ok && len(call.Call.Args) > 0 && stripIface(call.Call.Args[0]) == sink {
-						wrappers[call] = why
-						r.inst("%s: wrapper construction %s(%s)", fnName, f.String(), sinkParam)
-						r.note("buffered writes through %s are exempt: %s", f.String(), why)
+					if why, ok := bufferingWrappers[f.String()]; ok && len(call.Call.Args) > 0 {
+						a0 := stripIface(call.Call.Args[0])
+						_, onWrapper := wrappers[a0]
+						if a0 == sink || onWrapper {
+							wrappers[call] = why
+							changed = true
+							r.inst("%s: wrapper construction %s around %s", fnName, f.String(), valName(a0))
+							r.note("buffered writes through %s are exempt: %s", f.String(), why)
+						}
 					}
 				}
 			}
 		}
+	}
+	// deferred flushes cannot report their error (no closure assigns it to the result here)
+	for _, b := range fn.Blocks {
+		for _, in := range b.Instrs {
+			d, ok := in.(*ssa.Defer)
+			if !ok {
+				continue
+			}
+			var ops []ssa.Value
+			if d.Call.IsInvoke() {
+				ops = append(ops, d.Call.Value)
+			}
+			ops = append(ops, d.Call.Args...)
+			for _, a := range ops {
+				v := stripIface(a)
+				_, isW := wrappers[v]
+				if v == sink || isW {
+					name := "call"
+					if f := d.Call.StaticCallee(); f != nil {
+						name = "call " + c.short(f)
+					}
+					r.inst("%s: deferred %s", fnName, name)
+					r.oblig(false)
+					r.find(fnName+":deferred "+name, c.instrPos(d), "%s defers %s on the output: its error result cannot reach the caller, so a failed final write is reported as success", fnName, name)
+				}
+			}
+		}
+	}
+	// every wrapper must be flushed on every path from its construction to a success return
+	for w := range wrappers {
+		wc := w.(*ssa.Call)
+		flushBlocks := map[*ssa.BasicBlock]bool{}
+		for _, b := range fn.Blocks {
+			for _, in := range b.Instrs {
+				if call, ok := in.(*ssa.Call); ok && len(call.Call.Args) > 0 && stripIface(call.Call.Args[0]) == ssa.Value(wc) {
+					if f := call.Call.StaticCallee(); f != nil && (f.Name() == "Flush" || f.Name() == "Close") {
+						flushBlocks[b] = true
+					}
+				}
+			}
+		}
+		reach := reachableBlocks(wc.Block(), func(b *ssa.BasicBlock) bool { return flushBlocks[b] })
+		okFlush := true
+		if !flushBlocks[wc.Block()] {
+			for b := range reach {
+				if ret, isRet := b.Instrs[len(b.Instrs)-1].(*ssa.Return); isRet && returnsNilError(ret) {
+					okFlush = false
+					r.find(fnName+":"+c.srcAt(wc.Pos())+" not flushed before success", c.instrPos(ret), "%s can report success without flushing the buffering writer built at %s: buffered output never reaches %s", fnName, c.instrPos(wc), sinkParam)
+				}
+			}
+		}
+		r.inst("%s: wrapper %s flushed on every success path", fnName, c.srcAt(wc.Pos()))
+		r.oblig(okFlush)
 	}
 	n := 0
 	for _, b := range fn.Blocks {
@@ -295,7 +431,7 @@ func ruleErrChk(c *Ctx, r *RuleResult, fnName, sinkParam string) {
 			}
 		}
 	}
-	if n == 0 {
+	if n == 0 && len(wrappers) == 0 {
 		r.undecided("%s: no direct or flush write to %s found", fnName, sinkParam)
 	}
 	// the sink must not escape to module functions or be stored
@@ -321,13 +457,14 @@ func init() {
 		},
 		controls: func(ctl *Ctx) []*RuleResult {
 			var out []*RuleResult
-			for _, f := range []string{"errctl.BadFlushDropped", "errctl.BadErrSwallowed", "errctl.BadCheckedLate"} {
+			for _, f := range []string{"errctl.BadFlushDropped", "errctl.BadErrSwallowed", "errctl.BadCheckedLate", "errctl.BadDeferredFlush", "errctl.BadNeverFlushed"} {
 				e := &RuleResult{Rule: "ERRCHK"}
 				ruleErrChk(ctl, e, f, "w")
 				out = append(out, e)
 			}
 			g := &RuleResult{Rule: "ERRCHK"}
 			ruleErrChk(ctl, g, "errctl.GoodWrite", "w")
+			ruleErrChk(ctl, g, "errctl.GoodWithDefer", "w")
 			out[0].Findings = append(out[0].Findings, g.Findings...)
 			d := ruleDomain(ctl, "errctl.BadDomain", "weights", "n")
 			d2 := ruleDomain(ctl, "errctl.GoodDomain", "weights", "n")
